@@ -10,7 +10,7 @@ CHECKS = {
         'the Bitcoin Core forms, minimality, prefix-freeness; the model is tied to the code by differential execution of every modelled '
         'function (boundary-exhaustive + random) on each run.'
         ' Round 3: argument forms of the wire helpers (str in Latin-1 / UTF-8 across the CompactSize boundaries counted in bytes and characters, bytearray, memoryview, int-likes), judged by an own normaliser and CompactSize reader.'
-        ' Session 4: varstr_total / varstr_roundtrip / varstr_prefix_free (every byte string except the single zero byte, witness varstr_zero_byte_refuted) and the injectivity corollaries cs_injective, scriptnum_injective, scriptnum_minimal_unique (Proofs/VarStr.v).',
+        ' Session 4: varstr_total / varstr_roundtrip / varstr_prefix_free (every byte string except the single zero byte, witness varstr_zero_byte_refuted) and the injectivity corollaries cs_injective, scriptnum_injective, scriptnum_minimal_unique, script_serialize_injective (Proofs/VarStr.v).',
    design_ref='DESIGN.md section 6, C18',
    note='Trusted: Coq kernel, extraction (ExtrOcamlBasic, ExtrOcamlZBigInt), OCaml driver, Python harness. Closed under the global '
         'context (no axioms). Script.parse round trip is proved under the guard inert/no whole-script heuristic; the excluded classes are '
